@@ -124,6 +124,12 @@ class SocketPort(BaseIOPort):
             raise OSError(err.args[1]) from err
 
     def _close(self):
+        # The file objects hold references to the socket, which is
+        # only really closed when they are closed too.
+        # (They do not exist yet if connecting failed in __init__().)
+        for file in (getattr(self, '_rfile', None), getattr(self, '_wfile', None)):
+            if file is not None:
+                file.close()
         self._socket.close()
 
 
